@@ -394,6 +394,9 @@ def run_case(c):
         sc = ph.supercell
         fcm = models.pair_fc(sc.cell, sc.scaled_positions, sc.symbols, cutoff=4.6)
         F = setup.harmonic_forces_type1(ph, fcm)
+        # numerical noise on the forces (as any real calculator output has): symmetrisation / cutoff of the force constants is then not a no-op and
+        # the order in which the command applies and writes them matters
+        F = F + 2e-4 * rng.standard_normal(F.shape)
         vfiles = []
         for i, fn in enumerate(files):
             vasprun(os.path.join(tmp, "vasprun-%03d.xml" % (i + 1)), read_vasp(os.path.join(tmp, fn)), F[i])
